@@ -83,6 +83,8 @@ func C18(c *Ctx) {
 	r.Rule("R18.3", "size bound: every append to the batch is followed, before the next append, by the test that stops the iteration when len(batch) reached the batch size, and the batch size is min(configured size, ready count).")
 	r.Rule("R18.4", "sequence numbers: batchSeqNo is written only by the constructor, SetBatchSeqNo and one increment in generateBlock, after which generateBlock cannot return an error (the number is always carried by a returned batch).")
 	r.Rule("R18.5", "promotion: filterReady adds to the ready list only on the edge nonce == demanded nonce and advances the demanded nonce by one on that edge.")
+	r.Rule("R18.6", "the commit nonce is what was committed: nonceCache.updateCommittedNonce hands each account's reported nonce to setCommitNonce unchanged (the value of the map it ranges over, on every path); a nonce adjusted on the way - e.g. clamped to the pending nonce - makes generateBlock start an account below its committed nonce and batch transactions a second time.")
+	c.c18CommitNonce()
 	r.NotDecided = append(r.NotDecided, "history-dependent consistency of the indices over arrival/commit interleavings; restart reload of nonces; the unbounded batch when the ready counter is 0 while ready transactions exist (reported as information)")
 
 	pt := c.fn("R18.1", mpPrefix+"ProcessTransactions")
@@ -399,4 +401,30 @@ func C18(c *Ctx) {
 		r.Floor("R18.5", "promotion decisions", n, 1)
 	}
 	_ = fmt.Sprintf
+}
+
+
+// c18CommitNonce: R18.6.
+func (c *Ctx) c18CommitNonce() {
+	r := c.R
+	fn := c.fn("R18.6", "pkg/order/mempool.(*nonceCache).updateCommittedNonce")
+	if fn == nil {
+		return
+	}
+	n := 0
+	for _, call := range core.Calls(fn) {
+		if !strings.HasSuffix(core.CalleeName(call), "nonceCache).setCommitNonce") || len(call.Common().Args) < 3 {
+			continue
+		}
+		n++
+		val := call.Common().Args[2]
+		over, idx, ok := rangeOver(val)
+		isParam := false
+		if ok {
+			_, isParam = core.Strip(over).(*ssa.Parameter)
+		}
+		r.Check(ok && idx == 2 && isParam, "R18.6", fmt.Sprintf("updateCommittedNonce: setCommitNonce #%d stores the reported nonce", n), c.P.Pos(call.Pos()), "the value of the ranged map, unchanged",
+			"the nonce stored as commit nonce is not (on every path) the one reported for the account: after an out-of-order commit the pool believes an older nonce is the committed one, and generateBlock batches transactions below the committed nonce again")
+	}
+	r.Floor("R18.6", "setCommitNonce calls in updateCommittedNonce", n, 1)
 }
